@@ -528,7 +528,49 @@ def isolation_rule(ctx, rid):
     return rr
 
 
+def memo_rule(ctx, rid):
+    """A value derived from the accumulators and kept on the object (a memo) must be reset by every method that feeds the
+    accumulators: methods that feed the same state must agree on resetting the memo (sibling cross-check)."""
+    rr = ctx.rule(rid, "a memo of derived statistics is reset by every method that feeds samples (update and update_from_it agree)", floor=0)
+    prog = ctx.prog
+    for cname in ("RunningStatistics", "RunningCovariance", "RunningCovarianceMatrix"):
+        cls = prog.need_cls(U + "." + cname)
+        feeders = [m for n_, m in cls.methods.items() if n_.startswith("update")]
+        if len(feeders) < 2:
+            continue
+        # attributes some feeder resets (X.clear(), self.X = {} / None / [])
+        def resets(m):
+            out = set()
+            for x in ast.walk(m.node):
+                if isinstance(x, ast.Call) and isinstance(x.func, ast.Attribute) and x.func.attr == "clear" and isinstance(x.func.value, ast.Attribute) and norm(x.func.value.value) == "self":
+                    out.add(x.func.value.attr)
+                if isinstance(x, ast.Assign) and isinstance(x.targets[0], ast.Attribute) and norm(x.targets[0].value) == "self" and (isinstance(x.value, (ast.Dict, ast.List)) and not getattr(x.value, "keys", getattr(x.value, "elts", None)) or (isinstance(x.value, ast.Constant) and x.value.value is None)):
+                    out.add(x.targets[0].attr)
+            return out
+        per = {m.name: resets(m) for m in feeders}
+        # a memo: reset by a feeder and *read back* by a non-feeder method (getter / property)
+        readers = {}
+        for n_, m in cls.methods.items():
+            if m in feeders or n_ == "__init__":
+                continue
+            for x in ast.walk(m.node):
+                if isinstance(x, ast.Attribute) and norm(x.value) == "self" and isinstance(x.ctx, ast.Load):
+                    readers.setdefault(x.attr, set()).add(n_)
+        memos = {a for rs in per.values() for a in rs if a in readers}
+        for a in sorted(memos):
+            ctx.touch(cls.methods["__init__"]) if "__init__" in cls.methods else None
+            missing = [m for m in feeders if a not in per[m.name] and not any(isinstance(c, ast.Call) and isinstance(c.func, ast.Attribute) and norm(c.func.value) == "self" and c.func.attr in per and a in per[c.func.attr] for c in ast.walk(m.node))]
+            if missing:
+                m = missing[0]
+                rr.bad(ctx.finding(rid, m, m.node, "%s.%s feeds samples into the accumulators without resetting `self.%s`, which %s resets and %s read(s) back: after a chunk has been fed the derived statistics still describe the samples seen before it"
+                                   % (cname, m.name, a, ", ".join(sorted(k for k, v in per.items() if a in v)), ", ".join(sorted(readers[a]))), construct="memo-not-reset " + a), "%s memo %s" % (cname, a))
+            else:
+                rr.ok("%s: every feeder resets the memo `%s`" % (cname, a))
+    return rr
+
+
 def run(ctx):
+    memo_rule(ctx, "C19.R5")
     induction_rule(ctx, "C19.R1")
     conditioning_rule(ctx, "C19.R2")
     if ctx.extra.get("unverified_chunk_merge") and not [f for r in ctx.results for f in r.findings]:
